@@ -64,6 +64,15 @@ import (
 //      int marker, 8 for a bigint one); row-not-decoded-for-the-id: the row the caller sees
 //      is the row the node sent, read with the result metadata of the id the EXECUTE carried
 //      (column names, types, values)
+//   i  (sameAddr runs: every connection reports ONE remote address, as behind an SNI proxy or a
+//      tunnelling dialer; the dialled address still decides the node) - judged by clauses a, b
+//   j  the connection that carries a shared PREPARE is lost (closed / reset by the node, or
+//      closed by the driver) before the answer arrives: every operation that was waiting on
+//      that PREPARE is told (waiter-succeeded-after-failed-prepare:connection-lost), and
+//      none of them prepares again on its own: a PREPARE must have a possible sender, i.e. an
+//      operation using the key that has not already used up its one look-up as winner or
+//      waiter of an earlier PREPARE of the key (prepare-without-a-new-caller); a later call
+//      prepares again and succeeds (final phase)
 
 func init() {
 	register(&Scenario{
@@ -243,6 +252,7 @@ type prepOp struct {
 	cancel   context.CancelFunc
 	canceled bool
 	flights0 int // PREPAREs the driver had in flight on its host when it was invoked
+	doneStep int // step at which the call returned
 }
 
 func (op *prepOp) uses(host string, st *prepStmt) bool {
@@ -315,6 +325,9 @@ type prepReq struct {
 	failedStep int
 	rec        *node.ReqRec
 	timedOut   bool // the driver gave up waiting for its answer (exec.timedOut on its stream)
+	lost       bool // its connection was lost before the answer had been delivered
+	otherConn  bool // while it was pending, a caller on ANOTHER connection of the node joined a PREPARE in flight
+	winnerStep int  // step at which the driver published the single-flight entry that sent it (0 = unknown)
 }
 
 func (p *prepReq) wasDelivered() bool {
@@ -367,6 +380,19 @@ type prepWorld struct {
 	finalPrepares int // PREPAREs received during the final phase
 	timeouts      []prepTimeout
 	flights       map[string]int // host -> PREPAREs the driver has in flight (published, not finished)
+
+	sameAddr   bool            // every connection reports one remote address
+	closeBias  int             // how eagerly a connection that owes a PREPARE answer is closed
+	armWait    bool            // callers that find a PREPARE in flight on their node park at prep.wait
+	winnerStep map[string]int  // connection -> step of its latest published single-flight entry
+	waitEvents []prepWaitEv    // callers that joined a PREPARE in flight (yield point prep.wait)
+	resetConns map[string]bool // connections the node reset (rather than closed) while they owed a PREPARE answer
+}
+
+// prepWaitEv: a caller on connection conn found a PREPARE of its statement in flight.
+type prepWaitEv struct {
+	conn, host string
+	step       int
 }
 
 type prepHostCtxKey struct{}
@@ -523,6 +549,19 @@ func runPrep(e *Env) {
 		}
 		maxRestarts += tp.Next(3) // nodes that forget everything more often
 	}
+	// newest dimensions (0 = as before): all nodes behind one remote address (SNI proxy,
+	// tunnelling dialer); a node that is more eager to close a connection owing a PREPARE answer
+	sameAddr := nHosts >= 2 && tp.Chance(1, 3)
+	closeBias := 0
+	if allowClose {
+		closeBias = tp.Next(3)
+	}
+	// callers that join a PREPARE in flight are held at the yield point prep.wait (so that the
+	// PREPARE ends, one way or the other, while they have not begun to wait for it)
+	armWait := !e.NoFaults && tp.Chance(1, 4)
+	e.Note("armWait", armWait)
+	e.Note("sameAddr", sameAddr)
+	e.Note("closeBias", closeBias)
 	e.Note("allowMeta", allowMeta)
 	e.Note("maxAlters", maxAlters)
 	e.Note("noSkipMeta", noSkipMeta)
@@ -550,7 +589,9 @@ func runPrep(e *Env) {
 		byText: map[string]*prepStmt{}, byName: map[string]*prepStmt{},
 		nodes: map[string]*prepNodeState{}, issued: map[string]*prepID{}, keys: map[string]*prepKey{},
 		entries: map[string]*prepEntry{}, fates: map[string][]int{}, flights: map[string]int{},
+		sameAddr: sameAddr, closeBias: closeBias, armWait: armWait, winnerStep: map[string]int{}, resetConns: map[string]bool{},
 	}
+	cl.Net.SameRemoteAddr = sameAddr
 	w.metaKS = ks
 	if w.metaKS == "" {
 		w.metaKS = "ksdef"
@@ -727,6 +768,12 @@ func runPrep(e *Env) {
 			// a single-flight entry was just published for a statement on this host
 			w.mu.Lock()
 			w.flights[prepHostOf(c)]++
+			w.winnerStep[ConnName(c)] = k.Step()
+			w.mu.Unlock()
+		case "prep.wait":
+			// a caller on this connection joined a PREPARE that is in flight
+			w.mu.Lock()
+			w.waitEvents = append(w.waitEvents, prepWaitEv{conn: ConnName(c), host: prepHostOf(c), step: k.Step()})
 			w.mu.Unlock()
 		}
 		baseHook(point, c, stream)
@@ -867,6 +914,10 @@ func (w *prepWorld) perform(sess *gocql.Session, op *prepOp) {
 	w.mu.Lock()
 	op.cancel = cancel
 	op.flights0 = w.flights[op.host]
+	if w.armWait && w.faultsOn && op.flights0 > 0 {
+		// the next caller that joins a PREPARE in flight parks before it starts to wait
+		k.ArmNext("prep.wait")
+	}
 	op.running = true
 	op.invoke = k.Step()
 	op.t0 = time.Now()
@@ -928,6 +979,7 @@ func (w *prepWorld) perform(sess *gocql.Session, op *prepOp) {
 	w.mu.Lock()
 	op.running = false
 	op.done = true
+	op.doneStep = k.Step()
 	op.err = err
 	op.got = got
 	w.mu.Unlock()
@@ -1050,13 +1102,20 @@ func (w *prepWorld) checkOutcome(op *prepOp) {
 		for _, p := range failedOn {
 			w.mu.Lock()
 			neverRestarted := w.nodes[p.key.host].forgets == 0
+			lost, other, pconn := p.lost, p.otherConn, p.sc.C.Name
 			w.mu.Unlock()
+			sig, how := "C14/waiter-succeeded-after-failed-prepare", "failed"
+			if lost {
+				// clause (j): the PREPARE was never answered, its connection went away
+				sig += ":connection-lost"
+				how = fmt.Sprintf("failed because its connection %s was lost before the answer arrived (a caller on another connection had joined it: %v)", pconn, other)
+			}
 			if neverRestarted {
-				k.Violate("C14", "C14/waiter-succeeded-after-failed-prepare", "operation %s (%s) was waiting on the PREPARE of %s that arrived at step %d (the only one of that key at the time; the node never restarted, nothing could be evicted) and failed at step %d, yet it returned success instead of that failure", op.id, op.describe(), p.key.name, p.arriveStep, p.failedStep)
+				k.Violate("C14", sig, "operation %s (%s) was waiting on the PREPARE of %s that arrived at step %d (the only one of that key at the time; the node never restarted, nothing could be evicted) and %s at step %d, yet it returned success instead of that failure", op.id, op.describe(), p.key.name, p.arriveStep, how, p.failedStep)
 				return
 			}
 			if !w.laterGoodPrepare(p) {
-				k.Violate("C14", "C14/waiter-succeeded-after-failed-prepare", "operation %s (%s) was waiting on the PREPARE of %s that arrived at step %d and failed, no later PREPARE of that key succeeded, and yet it returned success", op.id, op.describe(), p.key.name, p.arriveStep)
+				k.Violate("C14", sig, "operation %s (%s) was waiting on the PREPARE of %s that arrived at step %d and %s, no later PREPARE of that key succeeded, and yet it returned success", op.id, op.describe(), p.key.name, p.arriveStep, how)
 				return
 			}
 		}
@@ -1234,7 +1293,19 @@ func (w *prepWorld) onPrepare(sc *node.SConn, rec *node.ReqRec) {
 	}
 	now := time.Now()
 	p := &prepReq{key: key, sc: sc, rec: rec, arrive: now, arriveStep: k.Step(), waiters: map[*prepOp]bool{}, exclusive: true}
+	p.winnerStep = w.winnerStep[sc.C.Name]
 	w.resolveTimeoutsLocked()
+	// a PREPARE of the key whose connection was lost before its answer had been delivered is
+	// over (the next scan would say so): this one does not overlap it
+	for _, p1 := range key.window {
+		if !p1.final && !p1.wasDelivered() && prepConnLost(p1.sc) {
+			w.settlePrepLocked(p1, now, 0)
+		}
+	}
+	if w.sameAddr {
+		k.Probe("prepare-behind-shared-remote-address")
+	}
+	w.checkSenderLocked(p, ns)
 
 	// clause (b): one PREPARE per key unless something legitimately forces another
 	if w.noEviction {
@@ -1371,6 +1442,57 @@ func (w *prepWorld) unhealthy(p *prepReq, now time.Time) string {
 		return "may have timed out"
 	}
 	return ""
+}
+
+// checkSenderLocked is clause (j), node side: single-flight accounting. An operation with one
+// statement looks its statement up once (again only after an UNPREPARED answer): as the
+// winner of a PREPARE or as a waiter of one. An operation that was running, had sent nothing
+// and named the key while an earlier PREPARE of the key was the only one pending has used
+// that look-up up, whatever became of that PREPARE; when it fails they are all told, none
+// of them prepares again. So a PREPARE needs a possible sender: an operation naming the key
+// that is not spent in this sense (one that started later, a batch, one that was told
+// UNPREPARED). Only where nothing else makes the driver look a statement up again: the cache
+// cannot evict, the node never forgot an id, the earlier PREPARE overlapped no other.
+func (w *prepWorld) checkSenderLocked(p *prepReq, ns *prepNodeState) {
+	if !w.noEviction || ns.forgets != 0 || prepConnLost(p.sc) {
+		return
+	}
+	key := p.key
+	var spentOn *prepReq
+	var spent []string
+	for _, op := range w.ops {
+		if !op.uses(key.host, key.st) || !(op.running || op.done) {
+			continue
+		}
+		if op.done && !op.canceled && op.doneStep < p.arriveStep-1 {
+			continue // it returned, and not because its context ended: nothing of it is under way
+		}
+		var on *prepReq
+		if len(op.entries) == 1 && op.unprep == 0 {
+			for _, p1 := range w.preps {
+				if p1.key == key && p1.final && p1.exclusive && p1.waiters[op] {
+					on = p1
+					break
+				}
+			}
+		}
+		if on == nil {
+			return // a possible sender
+		}
+		spentOn = on
+		spent = append(spent, op.id)
+	}
+	if spentOn == nil {
+		// nobody names the key at all: for the id checks to judge (unknown sender)
+		return
+	}
+	sort.Strings(spent)
+	how := "failed"
+	if spentOn.lost {
+		how = "failed because its connection " + spentOn.sc.C.Name + " was lost before the answer arrived"
+	}
+	w.k.Violate("C14", "C14/prepare-without-a-new-caller", "conn %s: PREPARE of %s at step %d, but every operation that names that statement on that node and is still under way (%s) had already looked it up: they were winner or waiters of the PREPARE that arrived at step %d on %s and %s at step %d (the only PREPARE of the key at the time; cache size %d >= %d keys, the node never forgot an id). A waiter of a failed PREPARE prepared again on its own instead of reporting the failure",
+		p.sc.C.Name, key.name, p.arriveStep, strings.Join(spent, ","), spentOn.arriveStep, spentOn.sc.C.Name, how, spentOn.failedStep, w.maxPrepared, len(w.keyList))
 }
 
 // resolveTimeoutsLocked attributes the timeout events seen so far to PREPAREs: the request
@@ -1746,58 +1868,112 @@ func (w *prepWorld) scan(sess *gocql.Session) {
 		}
 	}
 	for _, p := range w.preps {
-		if p.final {
-			continue
-		}
-		lost := p.sc.Dead || p.sc.C.ClientClosed() || p.sc.C.ServerClosed()
-		switch {
-		case p.wasDelivered():
-			if !p.delivered {
-				p.delivered = true
-				p.deliverAt = now
-			}
-			p.final = true
-			if p.fate == prepFateError {
-				p.failed = true
-			}
-		case lost, p.timedOut:
-			p.final, p.failed = true, true
-		case now.Sub(p.arrive) >= w.timeout+time.Millisecond:
-			// too old to collect further waiters; whether the driver still accepts a late
-			// answer is for the timeout hook to say
-			p.final = true
-			if p.fate >= prepFateError {
-				p.failed = true
-			}
-		}
 		if !p.final {
-			// operations that can only be the winner or waiters of this PREPARE
-			if pending[p.key] == 1 {
-				for _, op := range w.ops {
-					if op.running && op.frames == 0 && op.uses(p.key.host, p.key.st) {
-						p.waiters[op] = true
-					}
+			w.settlePrepLocked(p, now, pending[p.key])
+		}
+	}
+}
+
+func prepConnLost(sc *node.SConn) bool {
+	return sc.Dead || sc.C.ClientClosed() || sc.C.ServerClosed()
+}
+
+// settlePrepLocked looks at one PREPARE whose outcome is still open: it collects the
+// operations that can only be its winner or waiters, or, once the outcome is known, closes
+// the book on it (clause c / j bookkeeping, probes). pendingOfKey is the number of PREPAREs of
+// its key whose outcome is open.
+func (w *prepWorld) settlePrepLocked(p *prepReq, now time.Time, pendingOfKey int) {
+	k := w.k
+	lost := prepConnLost(p.sc)
+	switch {
+	case p.wasDelivered():
+		if !p.delivered {
+			p.delivered = true
+			p.deliverAt = now
+		}
+		p.final = true
+		if p.fate == prepFateError {
+			p.failed = true
+		}
+	case lost, p.timedOut:
+		p.final, p.failed = true, true
+		p.lost = lost
+	case now.Sub(p.arrive) >= w.timeout+time.Millisecond:
+		// too old to collect further waiters; whether the driver still accepts a late
+		// answer is for the timeout hook to say
+		p.final = true
+		if p.fate >= prepFateError {
+			p.failed = true
+		}
+	}
+	// callers on other connections of the node that joined a PREPARE in flight since the
+	// driver published the entry this PREPARE belongs to
+	if p.winnerStep > 0 && !p.otherConn {
+		for _, ev := range w.waitEvents {
+			if ev.host == p.key.host && ev.conn != p.sc.C.Name && ev.step >= p.winnerStep {
+				p.otherConn = true
+				break
+			}
+		}
+	}
+	if !p.final {
+		// operations that can only be the winner or waiters of this PREPARE
+		if pendingOfKey == 1 {
+			for _, op := range w.ops {
+				if op.running && op.frames == 0 && op.uses(p.key.host, p.key.st) {
+					p.waiters[op] = true
 				}
 			}
-			continue
 		}
-		p.failedStep = k.Step()
-		nw := len(p.waiters)
-		if !p.failed {
-			if nw >= 2 {
-				k.Probe("concurrent-waiters-on-one-prepare")
+		return
+	}
+	p.failedStep = k.Step()
+	nw := len(p.waiters)
+	if !p.failed {
+		if nw >= 2 {
+			k.Probe("concurrent-waiters-on-one-prepare")
+		}
+		for _, q := range w.preps {
+			if q.key == p.key && q.lost && q.arriveStep < p.arriveStep {
+				k.Probe("prepared-again-after-connection-loss")
+				break
 			}
-			continue
+		}
+		return
+	}
+	if nw >= 2 {
+		k.Probe("prepare-failed-with-waiters")
+	}
+	armed := w.noEviction && p.exclusive
+	if p.lost {
+		k.Probe("prepare-connection-lost")
+		parked := false
+		for _, pk := range k.ParkedKeys() {
+			if strings.HasPrefix(pk, "prep.wait@"+p.key.host+"#") && !strings.HasPrefix(pk, "prep.wait@"+p.sc.C.Name+"/") {
+				parked = true
+			}
 		}
 		if nw >= 2 {
-			k.Probe("prepare-failed-with-waiters")
-		}
-		// clause (c): only when nothing else could have given those operations an id
-		if w.noEviction && p.exclusive && p.fate >= prepFateError && !lost {
-			for op := range p.waiters {
-				if len(op.entries) == 1 {
-					op.failedOn = append(op.failedOn, p)
+			k.Probe("prepare-connection-lost-with-waiters")
+			if p.otherConn {
+				k.Probe("prepare-connection-lost-with-waiter-on-other-connection")
+				if w.resetConns[p.sc.C.Name] {
+					k.Probe("prepare-connection-reset-with-waiter-on-other-connection")
 				}
+				if parked {
+					k.Probe("prepare-connection-lost-with-waiter-parked-at-prep.wait")
+				}
+				if armed && w.nodes[p.key.host].forgets == 0 {
+					k.Probe("prepare-connection-lost-with-waiter-on-other-connection:judged")
+				}
+			}
+		}
+	}
+	// clauses (c) and (j): only when nothing else could have given those operations an id
+	if armed && ((p.fate >= prepFateError && !lost) || p.lost) {
+		for op := range p.waiters {
+			if len(op.entries) == 1 {
+				op.failedOn = append(op.failedOn, p)
 			}
 		}
 	}
@@ -1893,12 +2069,32 @@ func (w *prepWorld) faultActions() []kernel.Action {
 		}
 		seen[p.sc] = true
 		sc := p.sc
-		acts = append(acts, kernel.Action{Key: "srvclose:" + sc.C.Name, Rank: 6, Weight: 1, Do: func() {
-			k.Fault("conn.closed-with-prepare-outstanding")
+		// an eager node (closeBias, 0 = as before) closes sooner; the most eager one waits
+		// until the PREPARE is shared by several callers
+		weight := 1
+		switch w.closeBias {
+		case 1:
+			weight = 3
+		case 2:
+			if len(p.waiters) >= 2 {
+				weight = 8
+			}
+		}
+		acts = append(acts, kernel.Action{Key: "srvclose:" + sc.C.Name, Rank: 6, Weight: weight, Do: func() {
+			// how the connection goes away: FIN (the driver reads EOF) or RST
+			reset := k.Tape.Next(2) == 1
 			w.mu.Lock()
 			w.closes++
+			if reset {
+				w.resetConns[sc.C.Name] = true
+			}
 			w.mu.Unlock()
-			w.cl.CloseConn(sc, false)
+			if reset {
+				k.Fault("conn.reset-with-prepare-outstanding")
+			} else {
+				k.Fault("conn.closed-with-prepare-outstanding")
+			}
+			w.cl.CloseConn(sc, reset)
 		}})
 	}
 	return acts
